@@ -148,6 +148,22 @@ def _par_eval(h):
     fp2.default = 0.7
     out = h.call(par.par_evaluate, fp2 + 0)
     h.ensure("documented-default-used-only-when-set", out.returned and abs(float(out.value) - 0.7) < 1e-12)
+    # expressions MIXING the kinds of atoms (two measured, one bound free parameter), asymmetric in every pair: each atom
+    # gets its own value whatever order the atoms are collected in
+    import math
+    q0, q1, g = pu.RegRef(0), pu.RegRef(1), par.FreeParameter("g_c10")
+    q0.val, q1.val, g.val = 0.7, -1.3, 0.2
+    f = par.par_funcs
+    mixed = {
+        "q0-g": (q0.par - g, 0.7 - 0.2), "g-q0": (g - q0.par, 0.2 - 0.7), "q0/g": (q0.par / g, 0.7 / 0.2), "g/q1": (g / q1.par, 0.2 / -1.3),
+        "q0**g": (q0.par ** g, 0.7 ** 0.2), "g*sin(q0)": (g * f.sin(q0.par), 0.2 * math.sin(0.7)), "exp(-g)*q1+q0": (f.exp(-g) * q1.par + q0.par, math.exp(-0.2) * -1.3 + 0.7),
+        "q0-q1": (q0.par - q1.par, 2.0), "q1/q0-g": (q1.par / q0.par - g, -1.3 / 0.7 - 0.2), "(q0-g)/(q1+2*g)": ((q0.par - g) / (q1.par + 2 * g), 0.5 / -0.9),
+    }
+    for name, (expr, want) in mixed.items():
+        out = h.call(par.par_evaluate, expr)
+        h.ensure(f"mixed-atoms.{name}.every-atom-gets-its-own-value", out.returned and abs(complex(out.value) - want) < 1e-12)
+    out = h.call(par.par_evaluate, [q0.par - g, g - q1.par, 0.25])
+    h.ensure("mixed-atoms.list-of-parameters", out.returned and abs(complex(out.value[0]) - 0.5) < 1e-12 and abs(complex(out.value[1]) - 1.5) < 1e-12 and out.value[2] == 0.25)
 
 
 # ---------------------------------------------------------------------------------------------
